@@ -46,6 +46,14 @@ NP_WRITE_ARG0 = {"copyto", "put", "place", "putmask", "fill_diagonal", "put_alon
 INPLACE_METHODS = {"fill", "sort", "put", "itemset", "resize", "partition", "setfield", "setflags",
                    "append", "extend", "insert", "pop", "remove", "clear", "reverse", "update", "setdefault",
                    "popitem", "add", "discard"}
+CONTAINER_ADD = {"append", "extend", "insert", "add", "update", "setdefault"}
+# numpy ufunc-like functions whose argument after the inputs is `out`
+NP_UFUNC_NIN = dict([(n, 2) for n in ("add", "subtract", "multiply", "divide", "true_divide", "floor_divide", "power",
+                                       "maximum", "minimum", "fmax", "fmin", "mod", "remainder", "arctan2", "hypot",
+                                       "dot", "matmul", "logical_and", "logical_or", "greater", "less", "equal")] +
+                    [(n, 1) for n in ("exp", "log", "sqrt", "negative", "abs", "absolute", "square", "sin", "cos",
+                                      "tanh", "reciprocal", "sign", "conj", "conjugate", "expm1", "log1p", "cbrt",
+                                      "floor", "ceil", "rint", "isnan", "logical_not")] + [("clip", 3)])
 CONTAINER_CTORS = {"tuple", "list", "zip", "enumerate", "reversed", "iter", "sorted", "dict", "set"}
 # names that are so common on ndarray/list/dict/str that a by-name match to a repo method means nothing
 COMMON_EXTERNAL_METHODS = {"copy", "dot", "get", "sum", "mean", "max", "min", "astype", "item", "tolist", "keys",
@@ -92,6 +100,11 @@ class Func:
         self.is_generator = any(isinstance(n, (ast.Yield, ast.YieldFrom)) for n in pf.walk_no_nested(node))
         # summary
         self.writes = {}  # root -> {'legit': bool, 'origins': {oid: weak}}
+        self.state = {}  # 'self.X' / 'self.a.X' / 'self.X[k]' -> statements that (re)write that storage
+        self.captures = {}  # param -> {(state attr, key)}: the argument is stored into keyed per-object state
+        self.cache_events = set()  # (target attr, key, aliased state root, stmt text, line, via)
+        self.keyed_stores = set()  # (target attr, key, stmt text): every store into keyed per-object state
+        self.attr_out = {}  # 'self.X' -> parameters the attribute may alias when the method returns
         self.ret = frozenset()
         # the tuple shape of the returned (yielded, for generators) value is syntactic
         vals = []
@@ -124,9 +137,8 @@ class Func:
         for n in pf.walk_no_nested(node):
             if isinstance(n, ast.Subscript) and isinstance(n.value, ast.Name):
                 self.array_evidence.add(n.value.id)
-            if isinstance(n, ast.Attribute) and isinstance(n.value, ast.Name) and n.attr in (
-                    "shape", "ndim", "size", "T", "dtype", "flags", "ctypes", "copy"):
-                self.array_evidence.add(n.value.id)
+            if isinstance(n, ast.Attribute) and isinstance(n.value, ast.Name):
+                self.array_evidence.add(n.value.id)  # has attributes / methods: an object, not a python scalar
 
     def _doc_types(self):
         doc = ast.get_docstring(self.node) or ""
@@ -418,6 +430,8 @@ class EffProgram:
                 if fm is not None:
                     return [(fm, True, ast.Name(id=g.self_name or "self", ctx=ast.Load()))]
             # mixins: the next class in a concrete MRO is unknown statically -> any sibling mixin by name
+            if name.startswith("__"):
+                return []
             cands = [c for c in self.methods_by_name.get(name, []) if c.cls is not g.cls]
             return [(c, len(cands) == 1, ast.Name(id=g.self_name or "self", ctx=ast.Load())) for c in cands]
         # ClassName.m / cls.m
@@ -449,6 +463,9 @@ class EffProgram:
             chain = self.prog.mro(c.mod, c.cls)
             roots.add(id(chain[-1][1]))
         strong = len(cands) == 1 or len(roots) == 1
+        if not strong and any(c.mod is mod for c in cands):
+            # by-name only: candidates defined next to the caller are far likelier than homonyms elsewhere
+            cands = [c for c in cands if c.mod is mod]
         return [(c, strong, recv) for c in cands]
 
     # -- analysis -----------------------------------------------------------
@@ -477,6 +494,31 @@ class EffProgram:
             out.append("%s: `%s`" % (cur[0][1], text[:90]))
             cur = (ckey, cparam, oid)
         return out
+
+
+def is_state(r):
+    return r == "self" or r.startswith("self.")
+
+
+def state_parts(r):
+    """'self.a.X[k]' -> (('a', 'X'), 'k') ; 'self.X' -> (('X',), None)"""
+    key = None
+    body = r[5:] if r.startswith("self.") else ""
+    if body.endswith("]") and "[" in body:
+        body, key = body[:-1].split("[", 1)
+    return tuple(p for p in body.split(".") if p), key
+
+
+def _simple_index(sl):
+    """a plain key (name / constant / attribute), as used for python dict and list slots"""
+    return isinstance(sl, (ast.Name, ast.Attribute)) or (
+        isinstance(sl, ast.Constant) and sl.value is not Ellipsis and sl.value is not None)
+
+
+def _key_text(sl):
+    if isinstance(sl, ast.Constant):
+        return "const:%r" % (sl.value,)
+    return pf.src(sl)
 
 
 class FuncAnalysis:
@@ -514,16 +556,31 @@ class FuncAnalysis:
             return dict(b)
         out = dict(a)
         for k, v in b.items():
-            out[k] = out.get(k, frozenset()) | v
+            if k in out:
+                out[k] = out[k] | v
+            elif k.startswith("self."):
+                out[k] = v | frozenset([k])  # not (re)bound on the other path: still the attribute's storage
+            else:
+                out[k] = v
+        for k in a:
+            if k not in b and k.startswith("self."):
+                out[k] = a[k] | frozenset([k])
         return out
+
+    def is_self(self, e):
+        return isinstance(e, ast.Name) and self.f.self_name is not None and e.id == self.f.self_name
 
     # .. recording ..
     def write(self, roots, stmt, cause, augname=False):
         """cause: ('store',) | ('call', callee, k, strong)"""
         f, P = self.f, self.P
         for r in roots:
-            if r == "self":
-                continue  # object state: not a caller array (typestate rules look at it separately)
+            if is_state(r):
+                if r != "self" and not augname:
+                    # storage reachable from an instance attribute is (re)written: object state, not a
+                    # caller array; recorded for the scratch-buffer / cache-alias rule
+                    self.new_state.setdefault(r, set()).add(cfg_head(stmt)[:90])
+                continue
             ent = self.new_writes.setdefault(r, {"legit": False, "origins": {}})
             if r in f.all_params and P.is_buffer(f, r):
                 ent["legit"] = True
@@ -551,6 +608,29 @@ class FuncAnalysis:
                         ent["origins"][oid] = w
                         P.via[(f.key, r, oid)] = (cfg_head(stmt), callee.key, k)
 
+    def cache_store(self, target_roots, key, vroots, stmt, via=""):
+        """a value with roots `vroots` is stored into a slot of per-object state `target_roots` (keyed by
+        `key` when the slot is selected by a run-time key)"""
+        f = self.f
+        for t in target_roots:
+            if not t.startswith("self."):
+                continue
+            tparts, tkey = state_parts(t)
+            k = key if key is not None else tkey
+            if k is None or k.startswith("const:"):
+                continue  # a single slot (or a fixed one): overwritten as a whole by the next producer
+            self.new_keyed.add(("self." + ".".join(tparts), k, cfg_head(stmt)[:100]))
+            for r in vroots:
+                if r == "self" or r.startswith("free:"):
+                    continue
+                if r.startswith("self."):
+                    if state_parts(r)[0] == tparts:
+                        continue
+                    self.new_events.add(("self." + ".".join(tparts), k, r,
+                                         cfg_head(stmt)[:100], getattr(stmt, "lineno", 0), via))
+                elif r in f.all_params:
+                    self.new_captures.setdefault(r, set()).add(("self." + ".".join(tparts), k))
+
     # .. expressions ..
     def ev(self, e, env, stmt):
         if e is None:
@@ -558,12 +638,19 @@ class FuncAnalysis:
         if isinstance(e, ast.Name):
             return self.lookup(e.id, env)
         if isinstance(e, ast.Attribute):
+            if self.is_self(e.value):
+                key = "self." + e.attr
+                return env[key] if key in env else frozenset([key])
             v = self.ev(e.value, env, stmt)
             if e.attr in SCALAR_ATTRS:
                 return frozenset()
             return v
         if isinstance(e, ast.Subscript):
             self.ev(e.slice, env, stmt)
+            if isinstance(e.value, ast.Attribute) and self.is_self(e.value.value) and _simple_index(e.slice):
+                key = "self." + e.value.attr
+                if key not in env:
+                    return frozenset(["%s[%s]" % (key, _key_text(e.slice))])
             return self.ev(e.value, env, stmt)
         if isinstance(e, ast.Starred):
             return self.ev(e.value, env, stmt)
@@ -618,6 +705,26 @@ class FuncAnalysis:
                 self.ev(ch, env, stmt)
         return frozenset()
 
+    def map_root(self, r, bind, recv, recv_roots, env):
+        """a root of the callee's summary -> roots in this function"""
+        if r == "self":
+            return bind.get("self", frozenset())
+        if r.startswith("self."):
+            if recv == "new" or recv is None:
+                return frozenset()
+            if self.is_self(recv) or (isinstance(recv, ast.Call) and pf.src(recv.func) == "super"):
+                base = r.split("[")[0]
+                if base in env and base.count(".") == 1:
+                    return env[base]
+                return frozenset([r])
+            if isinstance(recv, ast.Attribute) and self.is_self(recv.value) and state_parts(r)[0].__len__() == 1 \
+                    and ("self." + recv.attr) not in env:
+                return frozenset(["self.%s.%s" % (recv.attr, r[5:])])
+            return recv_roots
+        if r.startswith("free:"):
+            return self.lookup(r[5:], env)
+        return bind.get(r, frozenset())
+
     def call(self, c, env, stmt):
         P, f = self.P, self.f
         fn = c.func
@@ -628,29 +735,46 @@ class FuncAnalysis:
             recv_roots = self.ev(fn.value, env, stmt)
         cn = pf.call_name(c) or ""
         last = cn.split(".")[-1] if cn else (fn.attr if isinstance(fn, ast.Attribute) else "")
-        # out= convention of numpy / pyscf
-        if "out" in kwv and kwv["out"]:
-            self.write(kwv["out"], stmt, ("store",))
         callees = P.resolve(c, f)
         if not callees:
             head = cn.split(".")[0] if cn else ""
             is_np = head in ("np", "numpy")
+            # out= convention of numpy / scipy / pyscf: the argument's storage is overwritten
+            if kwv.get("out"):
+                self.write(kwv["out"], stmt, ("store",))
+            if is_np and last in NP_UFUNC_NIN and len(argv) > NP_UFUNC_NIN[last]:
+                self.write(argv[NP_UFUNC_NIN[last]], stmt, ("store",))  # positional out
             if is_np and last in NP_WRITE_ARG0 and argv:
                 self.write(argv[0], stmt, ("store",))
-            if cn in ("np.add.at", "np.subtract.at", "np.multiply.at") and argv:
-                self.write(argv[0], stmt, ("store",))
+            if cn.startswith(("np.", "numpy.")) and last == "at" and argv:
+                self.write(argv[0], stmt, ("store",))  # ufunc.at
             if last in EXTERNAL_WRITES:
                 for k in EXTERNAL_WRITES[last]:
                     if k < len(argv):
                         self.write(argv[k], stmt, ("store",))
-            if isinstance(fn, ast.Attribute) and fn.attr in INPLACE_METHODS and recv_roots:
-                self.write(recv_roots, stmt, ("store",))
+            if isinstance(fn, ast.Attribute) and fn.attr in INPLACE_METHODS and recv_roots and not (
+                    isinstance(fn.value, ast.Name) and fn.value.id in f.local_containers):
+                if fn.attr in CONTAINER_ADD and any(r.startswith("self.") for r in recv_roots):
+                    # self.A[k].append(v): a slot of per-object state now holds v
+                    vr = frozenset()
+                    for a in argv:
+                        vr |= a
+                    self.cache_store(recv_roots, None, vr, stmt)
+                    self.write(frozenset(r for r in recv_roots if not is_state(r)), stmt, ("store",))
+                else:
+                    self.write(recv_roots, stmt, ("store",))
             # value
             if is_np and last in NP_VIEW_FUNCS and argv:
                 return argv[0]
             if cn in ("np.ndarray", "numpy.ndarray"):
-                return kwv.get("buffer", frozenset()) | (argv[5] if len(argv) > 5 else frozenset())
+                b = kwv.get("buffer", frozenset()) | (argv[5] if len(argv) > 5 else frozenset())
+                if b:
+                    self.write(b, stmt, ("store",))  # an uninitialised view: the buffer is about to be refilled
+                return b
             if isinstance(fn, ast.Attribute) and fn.attr in VIEW_METHODS:
+                return recv_roots
+            if isinstance(fn, ast.Attribute) and fn.attr == "astype" and any(
+                    k.arg == "copy" and isinstance(k.value, ast.Constant) and k.value.value is False for k in c.keywords):
                 return recv_roots
             if isinstance(fn, ast.Name) and fn.id in CONTAINER_CTORS:
                 out = frozenset()
@@ -661,6 +785,8 @@ class FuncAnalysis:
         out = frozenset()
         for callee, strong, recv in callees:
             bind = self.bind_args(callee, c, argv, kwv, recv, recv_roots)
+            if kwv.get("out") and "out" not in callee.all_params and not callee.kwarg:
+                self.write(kwv["out"], stmt, ("store",))
             for k, ent in list(callee.writes.items()):
                 if k.startswith("free:"):
                     roots = self.lookup(k[5:], env)
@@ -670,13 +796,35 @@ class FuncAnalysis:
                     roots = bind.get(k, frozenset())
                 if roots:
                     self.write(roots, stmt, ("call", callee, k, strong))
+            # object state written by the callee, seen through the receiver (resolved edges only)
+            for r in (callee.state if strong else ()):
+                for m in self.map_root(r, bind, recv, frozenset(), env):
+                    if m.startswith("self."):
+                        self.new_state.setdefault(m, set()).add("%s -> %s" % (cfg_head(stmt)[:50], callee.qual))
+                    elif not is_state(m):
+                        self.write(frozenset([m]), stmt, ("store",))
+            # parameters the callee stores into keyed per-object state
+            for k, caps in (callee.captures.items() if strong else ()):
+                vr = bind.get(k, frozenset())
+                if not vr:
+                    continue
+                for attr, key in caps:
+                    troots = self.map_root(attr, bind, recv, frozenset(), env)
+                    troots = frozenset(t for t in troots if t.startswith("self."))
+                    if troots:
+                        self.cache_store(troots, key, vr, stmt, via=callee.qual)
+            # attributes the callee (a method of the same object) leaves bound to aliases of its arguments
+            if strong and recv is not None and recv != "new" and (self.is_self(recv) or (
+                    isinstance(recv, ast.Call) and pf.src(recv.func) == "super")):
+                for key, roots in callee.attr_out.items():
+                    m = frozenset()
+                    for r in roots:
+                        m |= self.map_root(r, bind, recv, recv_roots, {})
+                    m = frozenset(x for x in m if not is_state(x))
+                    if m:
+                        env[key] = m | env.get(key, frozenset([key]))
             for r in callee.ret:
-                if r == "self":
-                    out |= bind.get("self", frozenset())
-                elif r.startswith("free:"):
-                    out |= self.lookup(r[5:], env)
-                else:
-                    out |= bind.get(r, frozenset())
+                out |= self.map_root(r, bind, recv, recv_roots, env)
         return out
 
     def bind_args(self, callee, c, argv, kwv, recv, recv_roots):
@@ -746,14 +894,23 @@ class FuncAnalysis:
         elif isinstance(target, ast.Subscript):
             base = self.ev(target.value, env, stmt)
             self.ev(target.slice, env, stmt)
-            self.write(base, stmt, ("store",))
+            state_slot = _simple_index(target.slice) and base and all(r.startswith("self.") for r in base)
+            if state_slot:
+                # self.A[key] = v / self.A[key][name] = v: a slot of per-object state is rebound to v
+                key = None if isinstance(target.slice, ast.Constant) else _key_text(target.slice)
+                self.cache_store(base, key, v, stmt)
+            else:
+                self.write(base, stmt, ("store",))
             b = target.value
             while isinstance(b, (ast.Subscript, ast.Attribute)):
                 b = b.value
             if isinstance(b, ast.Name) and v and b.id in self.f.local_containers:
                 env[b.id] = self.lookup(b.id, env) | v  # a python list/dict now also reaches v
         elif isinstance(target, ast.Attribute):
-            self.ev(target.value, env, stmt)
+            if self.is_self(target.value):
+                env["self." + target.attr] = v
+            else:
+                self.ev(target.value, env, stmt)
 
     def _ret_positions(self, value_node, env, stmt, n, iterating=False):
         """per-position roots when unpacking a call whose callees all return (or, when iterating over a
@@ -774,12 +931,7 @@ class FuncAnalysis:
             bind = self.bind_args(callee, value_node, argv, kwv, recv, recv_roots)
             for k in range(n):
                 for r in callee.ret_pos[k]:
-                    if r == "self":
-                        out[k] |= bind.get("self", frozenset())
-                    elif r.startswith("free:"):
-                        out[k] |= self.lookup(r[5:], env)
-                    else:
-                        out[k] |= bind.get(r, frozenset())
+                    out[k] |= self.map_root(r, bind, recv, recv_roots, env)
         return out
 
     def transfer(self, node, env):
@@ -814,11 +966,16 @@ class FuncAnalysis:
             t = st.target
             if isinstance(t, ast.Name):
                 roots = self.lookup(t.id, env)
-                if roots:
+                if roots and t.id not in f.local_containers:  # `lst += [...]` extends the local python list
                     self.write(roots, st, ("store",), augname=True)
             elif isinstance(t, ast.Subscript):
                 self.ev(t.slice, env, st)
                 self.write(self.ev(t.value, env, st), st, ("store",))
+            elif isinstance(t, ast.Attribute) and self.is_self(t.value):
+                # self.attr op= x : in place when the attribute holds an array
+                roots = self.ev(t, env, st)
+                self.write(frozenset(r for r in roots if not is_state(r)), st, ("store",))
+                self.write(frozenset(r for r in roots if is_state(r)), st, ("store",))
             else:
                 self.ev(t.value, env, st)
         elif isinstance(st, ast.Return):
@@ -846,6 +1003,10 @@ class FuncAnalysis:
     def run(self):
         f = self.f
         self.new_writes = {}
+        self.new_state = {}
+        self.new_captures = {}
+        self.new_events = set()
+        self.new_keyed = set()
         self.new_ret = set()
         self.new_pos = [set() for _ in range(f.ret_shape)] if f.ret_shape else None
         g = cfgm.CFG(f.node)
@@ -875,6 +1036,20 @@ class FuncAnalysis:
         changed = False
         if self.new_writes != f.writes:
             f.writes = self.new_writes
+            changed = True
+        if self.new_state != f.state:
+            f.state = self.new_state
+            changed = True
+        if self.new_captures != f.captures:
+            f.captures = self.new_captures
+            changed = True
+        f.cache_events = self.new_events
+        f.keyed_stores = self.new_keyed
+        exit_env = ins.get(g.exit.id) or {}
+        attr_out = {k: frozenset(r for r in v if not is_state(r)) for k, v in exit_env.items()
+                    if k.startswith("self.") and any(not is_state(r) for r in v)}
+        if attr_out != f.attr_out:
+            f.attr_out = attr_out
             changed = True
         nr = frozenset(self.new_ret)
         if nr != f.ret:
